@@ -238,6 +238,14 @@ type req struct {
 	rxDelay                                     int64
 	omit                                        map[string]bool // zero-valued fields left out of the body
 	null                                        map[string]bool // absent text fields sent as JSON null
+	// pass-through / ignorable content that makes the document long (not part of the Coq term: the
+	// handler must answer as for the short request): ReceiverToken hex text, VSExtension.Object,
+	// unknown members, insignificant whitespace
+	recvToken         *string
+	vsObjectPad       int // > 0: "VSExtension":{"VendorID":"0a0b0c","Object":{"pad":"xxx..."}} with that many x
+	unknownPad        int // > 0: unknown members carrying that many bytes of string data
+	wsPad             int // spaces between the tokens
+	padNote           string
 }
 
 func sp(s string) *string { return &s }
@@ -277,6 +285,14 @@ func (r *req) body() string {
 	}
 	str("MessageType", r.mtype)
 	txt("SenderToken", r.senderToken)
+	txt("ReceiverToken", r.recvToken)
+	if r.vsObjectPad > 0 {
+		add("VSExtension", `{"VendorID":"0a0b0c","Object":{"pad":"`+strings.Repeat("x", r.vsObjectPad)+`","n":[1,2,{"deep":null}]}}`)
+	}
+	if r.unknownPad > 0 {
+		add("X-Vendor-Blob", jstr(strings.Repeat("u", r.unknownPad)))
+		add("Unknown2", `[1,2.5,{"a":"b"},null,true]`)
+	}
 	add("MACVersion", jstr("1.1.0"))
 	txt("PHYPayload", r.phy)
 	txt("DevEUI", r.devEUI)
@@ -286,7 +302,70 @@ func (r *req) body() string {
 		add("RxDelay", fmt.Sprint(r.rxDelay))
 	}
 	txt("CFList", r.cfl)
+	if r.wsPad > 0 {
+		// insignificant whitespace: after the opening brace, after the first comma, before the closing brace
+		n1, n2 := r.wsPad/3, r.wsPad/3
+		n3 := r.wsPad - n1 - n2
+		rest := strings.Join(fs[1:], ",")
+		return "{" + strings.Repeat(" ", n1) + fs[0] + "," + strings.Repeat("\n", n2) + rest + strings.Repeat("\t", n3) + "}"
+	}
 	return "{" + strings.Join(fs, ",") + "}"
+}
+
+const (
+	padToken = iota
+	padVSExtension
+	padUnknown
+	padWhitespace
+)
+
+// padTo makes the body exactly `total` bytes long with ignorable content of the given kind.
+func (r *req) padTo(method, total int) {
+	names := []string{"SenderToken / ReceiverToken hex text", "VSExtension.Object", "unknown members", "insignificant whitespace"}
+	r.padNote = fmt.Sprintf("body padded to %d bytes with %s", total, names[method])
+	set := func(n int) {
+		if n < 0 {
+			n = 0
+		}
+		switch method {
+		case padToken:
+			t := strings.Repeat("5a", n/2)
+			if total <= 8<<10 { // short enough to be printed into the Coq term: the modelled SenderToken
+				r.senderToken, r.recvToken = &t, nil
+			} else {
+				r.senderToken, r.recvToken = nil, &t
+			}
+			r.wsPad = n % 2
+		case padVSExtension:
+			r.vsObjectPad = n
+		case padUnknown:
+			r.unknownPad = n
+		case padWhitespace:
+			r.wsPad = n
+		}
+	}
+	n := 1
+	set(n)
+	for i := 0; i < 8; i++ {
+		d := total - len(r.body())
+		if d == 0 {
+			return
+		}
+		n += d
+		if n < 1 {
+			n = 1
+		}
+		set(n)
+	}
+	panic(fmt.Sprintf("harness: cannot pad the body to %d bytes (%d)", total, len(r.body())))
+}
+
+// replayBody: the body as stored in replay files (long padding is described, not repeated)
+func (r *req) replayBody(body string) string {
+	if len(body) <= 6000 {
+		return body
+	}
+	return body[:700] + " …[" + r.padNote + "; the padding is the repeated character visible here]… " + body[len(body)-300:]
 }
 
 func jval(v *string) string {
@@ -330,7 +409,11 @@ var keyNames = [5]string{"SNwkSIntKey", "FNwkSIntKey", "NwkSEncKey", "NwkSKey", 
 // send: one request, watched by the harness watchdog (a handler that does not return is reported
 // as hang:<body> instead of blocking the check)
 func send(h http.Handler, body string) (a answer) {
-	cases.Begin("ServeHTTP:"+body, map[string]interface{}{"api": "joinserver.NewHandler(config).ServeHTTP (POST body)", "body": body})
+	short := body
+	if len(short) > 6000 {
+		short = fmt.Sprintf("%s …(%d bytes)", body[:700], len(body))
+	}
+	cases.Begin("ServeHTTP:"+short, map[string]interface{}{"api": "joinserver.NewHandler(config).ServeHTTP (POST body)", "body": short})
 	defer cases.End()
 	return sendUnwatched(h, body)
 }
